@@ -190,6 +190,34 @@ def r12_5(ctx, rid="R12.5"):
     ctx.run_rule(rid, "compiled automata belong to the pattern they were compiled from", body, floor=3)
 
 
+def r12_7(ctx):
+    F = ctx.facts
+
+    def body(r):
+        # who looks at the cache state: the regex itself (to choose between the compiled automaton and a throw-away
+        # build of the same pattern) and the warm-up (to skip / count what is compiled).  A decision of the tree
+        # that reads it -- where a value is stored, whether a node is collapsed, which child is visited -- makes
+        # the structure, and with it traces and answers, depend on whether and when cache() ran.
+        readers = {}
+        for g in F.fn_list:
+            if g.derived:
+                continue
+            e = effects(g)
+            if (LAZY, "compiled") in e.reads or any(k[0] == LAZY and k[1] == "compiled" for k in e.writes):
+                owner = g
+                while owner.is_closure and owner.parent and owner.parent in F.fns:
+                    owner = F.fns[owner.parent]
+                readers.setdefault(owner.key, owner)
+        n = 0
+        for key, g in sorted(readers.items()):
+            ok = g.adt == LAZY or g.name in ("cache", "cached_len")
+            n += 1
+            r.ob("cache-state-reader:%s" % key, ok, g.site, "%s looks at LazyRegex.compiled%s" % (key, "" if ok else ": only the regex itself and the warm-up (cache / cached_len) may"))
+        if n < 4:
+            r.missing("readers of LazyRegex.compiled (found %d)" % n)
+    ctx.run_rule("R12.7", "only the regex and the warm-up look at the cache state", body, floor=4)
+
+
 def run(ctx):
     from .c08 import r08_1
     r08_1(ctx, rid="R12.6")  # a node decides with its (lazy or compiled) regex: no other shortcut depends on the cache state
@@ -198,3 +226,4 @@ def run(ctx):
     r12_2(ctx)
     r12_3(ctx)
     r12_4(ctx)
+    r12_7(ctx)
